@@ -34,6 +34,7 @@ type vtimer struct {
 func (e *Exec) spawn(fn Value, args []Value) {
 	t := &thread{id: len(e.threads), wake: make(chan struct{}, 1), what: fmt.Sprint(fnName(fn))}
 	e.threads = append(e.threads, t)
+	e.thWG.Add(1)
 	go e.threadMain(t, fn, args)
 }
 
@@ -50,6 +51,7 @@ func fnName(fn Value) string {
 }
 
 func (e *Exec) threadMain(t *thread, fn Value, args []Value) {
+	defer e.thWG.Done()
 	<-t.wake
 	if e.killed {
 		return
